@@ -86,7 +86,7 @@ def run(ctx):
         st, pr, av, ai = seq
         res.check(re.fullmatch(r"Add\(get\(%s\.cur_idx\),1\)" % self_, expr(pa, st.args[1])) is not None, "R2.2", "index-increment", st.where(), "cur_idx := cur_idx + 1 per value", "cur_idx updated with %s" % expr(pa, st.args[1]))
         res.check(expr(pa, av.args[1]) == expr(pa, ai.args[1]) and re.fullmatch(r"get_id\((arg|arg1\.\d+)\)", expr(pa, av.args[1])) is not None, "R2.2", "same-arg", av.where(), "value and index stored under the same arg id", "value/index stored under different ids")
-        res.check(re.fullmatch(r"get\(%s\.cur_idx\)" % self_, expr(pa, ai.args[2])) is not None, "R2.2", "index-value", ai.where(), "stored index = current cur_idx", "stored index is %s" % expr(pa, ai.args[2]))
+        res.check(re.fullmatch(r"get\(%s\.cur_idx\)" % self_, expr(pa, ai.args[2])) is not None or expr(pa, ai.args[2]) == expr(pa, st.args[1]), "R2.2", "index-value", ai.where(), "stored index = current cur_idx", "stored index is %s" % expr(pa, ai.args[2]))
         raw = expr(pa, av.args[3])
         res.check(raw == expr(pa, pr.args[3]) or raw in expr(pa, pr.args[3]), "R2.2", "raw-equals-parsed-input", av.where(), "raw value stored = the string given to the value parser", "raw value stored (%s) differs from the parser input (%s)" % (raw, expr(pa, pr.args[3])))
         # loop: every value of raw_vals (for over the vector, no skip/take/filter)
